@@ -20,10 +20,13 @@
 #include <string.h>
 #include <setjmp.h>
 #include <stdint.h>
+#define JPEG_INTERNALS
+#include "jinclude.h"
 #include "jpeglib.h"
 #include "jerror.h"
 
 #define MAXC 10
+#define MAXSCANS 4096
 
 struct my_err { struct jpeg_error_mgr pub; jmp_buf jb; int code; int parm; };
 
@@ -52,7 +55,7 @@ struct image {
   JCOEF *coef[MAXC];
 };
 
-struct cfg { int src_prev, opt, arith, ri, rows, prog, nscans; jpeg_scan_info scans[256]; };
+struct cfg { int src_prev, opt, arith, ri, rows, prog, nscans; jpeg_scan_info scans[MAXSCANS]; };
 
 static long cdiv(long a, long b) { return (a + b - 1) / b; }
 
@@ -90,7 +93,7 @@ static void parse_cfg(char *txt, struct cfg *c) {
     else if (!strncmp(t, "ri=", 3)) c->ri = atoi(t + 3);
     else if (!strncmp(t, "rows=", 5)) c->rows = atoi(t + 5);
     else if (!strncmp(t, "prog=", 5)) c->prog = atoi(t + 5);
-    else if (!strncmp(t, "scans=", 6)) c->nscans = parse_scans(t + 6, c->scans, 256);
+    else if (!strncmp(t, "scans=", 6)) c->nscans = parse_scans(t + 6, c->scans, MAXSCANS);
   }
 }
 
@@ -118,7 +121,7 @@ static int write_from_arrays(struct image *im, struct cfg *cf, unsigned char **o
   struct jpeg_compress_struct ci;
   jvirt_barray_ptr arr[MAXC];
   int c, hmax = 1, vmax = 1;
-  *out = NULL; *outsize = 0;
+  *out = NULL; *outsize = 0; memset(&ci, 0, sizeof ci);
   ci.err = jpeg_std_error(&err->pub); err->pub.error_exit = my_exit; err->pub.emit_message = my_emit;
   if (setjmp(err->jb)) { jpeg_destroy_compress(&ci); if (*out) { free(*out); *out = NULL; } return 1; }
   jpeg_create_compress(&ci);
@@ -152,7 +155,7 @@ static int transcode(unsigned char *src, unsigned long srcsize, struct cfg *cf, 
   struct my_err derr;
   jvirt_barray_ptr *arr;
   volatile int created_c = 0;
-  *out = NULL; *outsize = 0;
+  *out = NULL; *outsize = 0; memset(&ci, 0, sizeof ci); memset(&di, 0, sizeof di);
   di.err = jpeg_std_error(&derr.pub); derr.pub.error_exit = my_exit; derr.pub.emit_message = my_emit;
   ci.err = jpeg_std_error(&err->pub); err->pub.error_exit = my_exit; err->pub.emit_message = my_emit;
   if (setjmp(derr.jb)) {
@@ -183,6 +186,7 @@ static int transcode(unsigned char *src, unsigned long srcsize, struct cfg *cf, 
 /* read back coefficients, compare with the image; returns 1 equal, 0 different (msg filled), -1 error */
 static int readback(unsigned char *jpg, unsigned long size, struct image *im, char *msg, size_t msgsz, long *warn) {
   struct jpeg_decompress_struct di; struct my_err err; jvirt_barray_ptr *arr; int c, res = 1;
+  memset(&di, 0, sizeof di);
   di.err = jpeg_std_error(&err.pub); err.pub.error_exit = my_exit; err.pub.emit_message = my_emit;
   if (setjmp(err.jb)) { snprintf(msg, msgsz, "decode-error:%s", code_name(err.code)); jpeg_destroy_decompress(&di); return -1; }
   jpeg_create_decompress(&di);
@@ -215,6 +219,7 @@ static int readback(unsigned char *jpg, unsigned long size, struct image *im, ch
 static int pixels(unsigned char *jpg, unsigned long size, int P, uint64_t *hash) {
   struct jpeg_decompress_struct di; struct my_err err; uint64_t h = 1469598103934665603ULL;
   void *volatile row = NULL;
+  memset(&di, 0, sizeof di);
   di.err = jpeg_std_error(&err.pub); err.pub.error_exit = my_exit; err.pub.emit_message = my_emit;
   if (setjmp(err.jb)) { jpeg_destroy_decompress(&di); free(row); return 1; }
   jpeg_create_decompress(&di);
@@ -244,12 +249,12 @@ static int pixels(unsigned char *jpg, unsigned long size, int P, uint64_t *hash)
 }
 
 static void do_script(char *line) {
-  struct jpeg_compress_struct ci; struct my_err err; static jpeg_scan_info scans[256];
+  struct jpeg_compress_struct ci; struct my_err err; static jpeg_scan_info scans[MAXSCANS];
   jvirt_barray_ptr arr[MAXC]; unsigned char *out = NULL; unsigned long outsize = 0;
-  int NC, P, c, n; char spec[1 << 16];
-  spec[0] = 0;
-  if (sscanf(line, "script %d %d %65535s", &NC, &P, spec) < 2) { puts("?"); return; }
-  n = strcmp(spec, "-") ? parse_scans(spec, scans, 256) : 0;
+  int NC, P, c, n; static char spec[1 << 18];
+  spec[0] = 0; memset(&ci, 0, sizeof ci);
+  if (sscanf(line, "script %d %d %262143s", &NC, &P, spec) < 2) { puts("?"); return; }
+  n = strcmp(spec, "-") ? parse_scans(spec, scans, MAXSCANS) : 0;
   ci.err = jpeg_std_error(&err.pub); err.pub.error_exit = my_exit; err.pub.emit_message = my_emit;
   if (setjmp(err.jb)) {
     printf("err %s %d\n", code_name(err.code), err.code == JERR_MISSING_DATA ? 0 : err.parm);
